@@ -1388,6 +1388,21 @@ theorem C15_filter_para (root : DNode) (k excl : Str) (p : DNode) :
     ∧ firstPara root = (paragraphs root).head? := by
   refine ⟨by simp [filterPara], by simp [filterParaWithout], List.filter_sublist, List.filter_sublist, rfl⟩
 
+/-- `Copyright::iter_files()` / `iter_licenses()` (since the repair of F-C17-3): the same filters over
+    the paragraphs AFTER the first one — the header paragraph `Copyright::header()` returns is never
+    a Files or licence paragraph, whatever fields it carries -/
+theorem C15_filter_para_tail (root : DNode) (k excl : Str) (p : DNode) :
+    (p ∈ filterParaTail root k ↔ p ∈ (paragraphs root).drop 1 ∧ hasField k p = true)
+    ∧ (p ∈ filterParaWithoutTail root k excl ↔
+        p ∈ (paragraphs root).drop 1 ∧ hasField excl p = false ∧ hasField k p = true)
+    ∧ List.Sublist (filterParaTail root k) (paragraphs root)
+    ∧ List.Sublist (filterParaWithoutTail root k excl) (paragraphs root)
+    ∧ (firstPara root).toList ++ (paragraphs root).drop 1 = paragraphs root := by
+  refine ⟨by simp [filterParaTail], by simp [filterParaWithoutTail],
+    List.filter_sublist.trans (List.drop_sublist _ _), List.filter_sublist.trans (List.drop_sublist _ _), ?_⟩
+  unfold firstPara
+  cases paragraphs root <;> simp
+
 /-- every document-level getter row of the table is one of these lookups -/
 theorem C15_table_para_rows :
     ∀ r ∈ Gen.Accessors.rows, r.op = .paragraphs → (paraSem r (.node .ROOT [])).isSome = true := by
